@@ -10,6 +10,8 @@ From PowHsm Require Import Proofs.C03.
 From PowHsm Require Import Gen.Src.
 From PowHsm Require Import Proofs.SrcEquivProto.
 From PowHsm Require Import Proofs.SrcLiftC02.
+From PowHsm Require Import Proofs.SrcEquivGateM.
+From PowHsm Require Import Proofs.SrcLiftGate.
 Open Scope N_scope.
 
 (* for every JSON value the request gate answers or accepts; it never raises (rests on the generated command/validator tables) *)
@@ -115,5 +117,36 @@ Theorem C03_source_gate_total_v1 :
          src_HSM1Protocol____internal_handle_request op self (of_json request) =
          gate_spec V1 op request.
 Proof. exact (@src_gate_v1). Qed.
+
+(* the whole request path of the source = the model's handle_request on every request and world *)
+Theorem C03_source_whole_request_path_is_model :
+  forall (keccak : bytes -> bytes) (kind : dongle_kind) (init : ValM.pm pv)
+           (cm : string -> pv -> list pv -> pr pv) (fuel : nat) (self : pv) 
+           (request : json) (w : world),
+         SrcEquivProtoM.init_ok kind init ->
+         SrcEquivSignProtoM.tx_oracles_ok cm ->
+         path_oracle_ok cm ->
+         varint_oracle_ok cm ->
+         SrcEquivBlockM.block_oracles_ok keccak cm ->
+         SrcEquivBlockM.keccak_wf keccak ->
+         SrcEquivBlockProtoM.fuel_ok kind fuel w ->
+         SrcM.srcm_HSM2ProtocolLedger____internal_handle_request fuel cm init self 
+           (of_json request) w =
+         SrcEquivDongleM.mres of_json (handle_request keccak kind V5 request w).
+Proof. exact (@srcm_handle_request_v5_ok). Qed.
+
+(* the translated request path raises exactly when the accepted command's operation raises: a rejected request raises nothing *)
+Theorem C03_source_raises_only_from_operation :
+  forall (keccak : bytes -> bytes) (kind : dongle_kind) (init : ValM.pm pv)
+           (cm : string -> pv -> list pv -> pr pv) (fuel : nat) (self : pv) 
+           (request : json) (w : world) (e : exn) (w' : world),
+         env_ok keccak kind init cm fuel w ->
+         SrcM.srcm_HSM2ProtocolLedger____internal_handle_request fuel cm init self 
+           (of_json request) w = (ValM.XRaise e, w') ->
+         exists (cmd : str) (req : obj) (opname : str) (op : M rtuple),
+           gate_request V5 request = GAccept cmd req /\
+           assoc_str cmd (dispatch_table V5) = Some opname /\
+           run_operation keccak kind V5 opname req = Some op /\ op w = (Exn e, w').
+Proof. exact (@src_raises_only_from_operation). Qed.
 
 Example C03_nonvacuous : True. Proof. exact I. Qed. (* concrete lifetimes closed by vm_compute in Proofs/C03.v, including one that does stop (status outside the device range) *)
